@@ -88,6 +88,7 @@ from pytato.transform import (
     ArrayOrNames,
     CombineMapper,
     CopyMapper,
+    SubsetDependencyMapper,
     TransformMapperCache,
     _verify_is_array,
 )
@@ -479,6 +480,17 @@ class _LocalSendRecvDepGatherer(
 # }}}
 
 
+class _ValueSubsetDependencyMapper(SubsetDependencyMapper):
+    """
+    A :class:`~pytato.transform.SubsetDependencyMapper` for which the value of
+    a :class:`~pytato.DistributedSendRefHolder` depends only on its
+    pass-through data (and not on the data being sent).
+    """
+    def map_distributed_send_ref_holder(
+            self, expr: DistributedSendRefHolder) -> frozenset[Array]:
+        return self.combine(frozenset([expr]), self.rec(expr.passthrough_data))
+
+
 TaskType = TypeVar("TaskType")
 
 
@@ -704,7 +716,6 @@ def find_distributed_partition(
     """
     from mpi4py import MPI
 
-    from pytato.transform import SubsetDependencyMapper
     from pytato.transform.dead_code_elimination import eliminate_dead_code
 
     # Eliminate dead-code to prevent from unnecessary communication arising
@@ -835,7 +846,7 @@ def find_distributed_partition(
 
     # FIXME: This gathers up materialized_arrays recursively, leading to
     # result sizes potentially quadratic in the number of materialized arrays.
-    mso_array_dep_mapper = SubsetDependencyMapper(frozenset(mso_arrays))
+    mso_array_dep_mapper = _ValueSubsetDependencyMapper(frozenset(mso_arrays))
 
     mso_ary_to_first_dep_send_part_id: dict[Array, int] = \
         dict.fromkeys(mso_arrays, nparts)
@@ -846,7 +857,8 @@ def find_distributed_partition(
                 comm_id_to_part_id[send_id])
 
     if __debug__:
-        recvd_array_dep_mapper = SubsetDependencyMapper(frozenset(received_arrays))
+        recvd_array_dep_mapper = _ValueSubsetDependencyMapper(
+            frozenset(received_arrays))
 
         mso_ary_to_last_dep_recv_part_id: dict[Array, int] = {
                 ary: max(
